@@ -71,12 +71,11 @@ PROPS = {
         "hypotheses": [],
     },
     "C08": {
-        "units": [gen("C08")],
-        "level_text": "Deductive proof (Verus) of the blsful side of threshold signing: partial signatures and public-key shares are the share scalar times H(m) resp. G, carry the identifier, are bound to the scheme, verify against the participant's own key share and no other. Splitting and Lagrange recombination are vsss-rs and are assumed.",
-        "trusted_base": TB_ALGEBRA + ["L-VSSS: Share accessors and checked decoding; shamir::split_secret, combine_shares, combine_shares_group and the Lagrange interpolation identity are NOT verified"],
+        "units": [gen("C08", props=["lib_shares.rs", "C08.rs"])],
+        "level_text": "Deductive proof (Verus) of the blsful side of threshold signing: partial signatures and public-key shares are the share scalar times H(m) resp. G, carry the identifier, are bound to the scheme, verify against the participant's own key share and no other; every recombination wrapper forwards all shares to the combiner, refuses mixed schemes and re-tags with the common scheme; recombination in the exponent is linear (proved from the combiner's structure), so shares of scalar shares that recombine to the key recombine to exactly the whole-key signature / public key. That t of n shares of a split interpolate to the key is vsss-rs (assumed, L-LAGRANGE).",
+        "trusted_base": TB_ALGEBRA + ["L-VSSS: Share accessors and checked decoding; combine_shares{,_group} = Err for < 2 shares / zero id / duplicate id / undecodable value, else sum_i basis(ids,i)*y_i (model read from vsss-rs 4.3.8 set.rs; NOT verified)", "L-LAGRANGE: shamir::split_secret returns n shares with ids 1..n for 2<=t<=n<=255 and any >= t distinct ones interpolate to the secret (axiom_interpolation; NOT verified)", "L-STD: X.iter().skip(k).all(f) calls f on the elements from position k on (iter_skip_all, E15)"],
         "hypotheses": [X_NONID],
-        "not_decided": ["any t of n shares recombine to the key / public key / whole-key signature (vsss-rs interpolation)", "fewer than t shares never yield the key (information-theoretic)", "empty/single/duplicate/zero-identifier share sets are errors (vsss-rs combiner)",
-                        "Signature::from_shares / PublicKey::from_shares / SecretKey::split / combine: their bodies use iterator adapters (skip/all, into_iter/map) and vsss calls outside the verified subset; exercised on the real crate by the witness family only"],
+        "not_decided": ["that t of n shares of a split interpolate back to the key is ASSUMED of vsss-rs (L-LAGRANGE), not proved", "fewer than t shares never yield the key (information-theoretic)"],
     },
     "C09": {
         "units": [gen("C09")],
@@ -125,25 +124,25 @@ PROPS = {
         "not_decided": ["'decryption under a different secret key never returns the original message' (statistical statement about SHAKE128 output)"],
     },
     "C12": {
-        "units": [gen("C12")],
-        "trusted_base": TB_ALGEBRA + ["L-VSSS: Share accessors (identifier, value bytes, checked group/field decoding); combine_shares_group and Lagrange interpolation are NOT verified"],
+        "units": [gen("C12", props=["lib_shares.rs", "C12.rs"])],
+        "trusted_base": TB_ALGEBRA + ["L-VSSS: Share accessors (identifier, value bytes, checked group/field decoding); combiner model sum_i basis(ids,i)*y_i (see C08); L-LAGRANGE is used only as the hypothesis 'the scalar shares recombine to the key'"],
         "hypotheses": [X_NONID],
-        "not_decided": ["'any t or more distinct shares decrypt to the original message' and 'fewer than t never' (vsss-rs interpolation and an information-theoretic statement)"],
+        "not_decided": ["'fewer than t shares never return the original message' (information-theoretic / statistical)", "that t of n scalar shares recombine to the key is the hypothesis combined(f) == Some(sk) of c12_shares_decrypt_like_the_whole_key (L-LAGRANGE, vsss-rs)"],
     },
     "C13": {
-        "units": [leaf("assertion failed: o"), gen("C13", props=["lib_payload.rs", "C13.rs"])],
+        "units": [leaf("assertion failed: o"), gen("C13", props=["lib_payload.rs", "lib_shares.rs", "C13.rs"])],
         "trusted_base": TB_ALGEBRA + ["H-XOF / H-HASH: SHAKE128 and SHA-256 are uninterpreted functions of their input", "L-ZIGZAG (see C11)", "A-RNG (see C20)", "Gt is determined by its discrete log; gt_enc is injective",
                                       "E3d: a.iter().copied().chain(b.iter().copied()).collect() is modelled as concatenation", "byte_xor: see C11 (Kani, bounded)"],
         "hypotheses": [X_NONID, "X-RO for 'wrong id / wrong key / tampering yields nothing': another pairing value or another masked byte gives an unrelated alpha and check scalar"],
         "bounded_parts": ["byte_xor element-wise contract: Kani at N in {0, 4}"],
-        "not_decided": ["threshold-recombined signatures are equal to the whole-key signature as group elements (C08); the recombination itself is L-VSSS"],
+        "not_decided": ["that t of n scalar shares recombine to the key (L-LAGRANGE, vsss-rs) is a hypothesis of c13_recombined_signature_opens_like_the_whole_key_signature"],
     },
     "C14": {
-        "units": [gen("C14")],
+        "units": [gen("C14", props=["lib_shares.rs", "C14.rs"])],
         "trusted_base": TB_ALGEBRA + ["H-TRANSCRIPT: the Merlin challenge is an uninterpreted function of the exact (label, message) sequence, the challenge label and the output length", "hash_to_curve into the public-key group (PublicKeyHasher) is uninterpreted",
                                       "BlsElGamal::seal_scalar_with_proof is NOT verified (closures capturing &mut rng are outside the Verus subset): its contract is assumed", "A-RNG"],
         "hypotheses": ["X-RO on the transcript hash for the binding statements"],
-        "not_decided": ["proof completeness end to end (it needs the unverified prover seal_scalar_with_proof)", "decryption keys recombined from t-of-n shares (vsss-rs, L-VSSS)"],
+        "not_decided": ["proof completeness end to end (it needs the unverified prover seal_scalar_with_proof)", "that t of n scalar shares recombine to the key (L-LAGRANGE, vsss-rs) is a hypothesis of c14_key_from_shares_decrypts"],
     },
     "C15": {
         "units": [LEAF_FUNCTIONAL_BOTH, gen("C15", props=["lib_bytes.rs", "C15.rs"])],
